@@ -266,7 +266,12 @@ def episode(ad, td0, seqs=None, tag="rand"):
         return dict(env=n, cfg=ad.cfg, instance=td0[b], row=b, batch_size=B, quotas=q.tolist(),
                     actions_so_far=[[int(a[r]) for a in acts] for r in range(B)], **kw)
 
-    td = lib(f"C02.{n}.reset-raises", lambda: env.reset(td0.clone()), lambda: inp(0))
+    # the TensorDict handed to reset is a container that TorchRL's reset fills with the state (reset returns the same object);
+    # what must survive the episode is the STORAGE of the instance tensors it was given (rows / views of a dataset that
+    # will be used again): no in-place write into them
+    inst = td0.clone()
+    orig = {k: inst[k] for k in inst.keys() if torch.is_tensor(inst[k])}
+    td = lib(f"C02.{n}.reset-raises", lambda: env.reset(inst), lambda: inp(0))
     if td is None:
         return None
     cap, finished = int(q.max()) + 2, False
@@ -312,6 +317,11 @@ def episode(ad, td0, seqs=None, tag="rand"):
             break
     if not finished:
         fail(f"C02.{n}.step-bound-exceeded", f"batch not finished after {cap} steps, max quota {int(q.max())}", inp(0))
+    # history: the episode must leave the instance it was started from untouched, otherwise a second episode on the same
+    # data starts from a different instance (forbidden cells / memberships / locations of the first one)
+    for k, v in orig.items():
+        if not torch.equal(v, td0[k]):
+            fail(f"C08.{n}.episode-writes-into-instance-storage", f"the tensor given as '{k}' of the instance was modified in place during the episode", inp(0, key=k, after=v[0]))
     A = torch.stack(acts, 1)
     T = A.shape[1]
     for b in range(B):
